@@ -102,6 +102,9 @@ class Scn:
     state_field: str = "state"
     extra_events: dict = field(default_factory=dict)   # event id >= 100 -> arbitrary name (never declared)
     model_shape: str = "plain"                    # plain | len0 | boolF  (falsy model objects)
+    alias_sub: list = field(default_factory=list) # [e1, e2]: event e1 is a class attribute of a base class and the
+                                                  # machine is `class Sub(Base): <e2> = Base.<e1>`: the transitions
+                                                  # declared for e1 carry e2 (only) in the subclass
     listener_kind: str = "class"                  # class | eq (all listeners compare equal) | hooks (one generic
                                                   # class, callbacks stored as instance attributes)
 
@@ -112,6 +115,8 @@ class Scn:
     def _cb_bound(self, c):
         """an event-named convention callback exists for the library only if some transition carries the event"""
         if c.style == "conv" and c.at[0] == "ev":
+            if self.alias_sub and c.at[1] == self.alias_sub[0]:
+                return True     # registered by the base class's _setup, guarded by is_same_event
             return any(c.at[1] in t.events for t in self.trans)
         return True
 
@@ -580,6 +585,10 @@ def build(scn: Scn, rt: Runtime, cls_name=None, picklable=False):
         if tr.any:
             tl = states[tr.tgt].from_.any(**kw)
             ns[EVENTS[tr.events[0]]] = tl
+        elif scn.alias_sub and tr.events == [scn.alias_sub[1]]:
+            tl = states[tr.src].to(states[tr.tgt], **kw)
+            e1 = EVENTS[scn.alias_sub[0]]
+            ns[e1] = (ns[e1] | tl) if e1 in ns else tl
         else:
             tl = states[tr.src].to(states[tr.tgt], event=[EVENTS[e] for e in tr.events], **kw)
         tls.append(tl)
@@ -615,6 +624,10 @@ def build(scn: Scn, rt: Runtime, cls_name=None, picklable=False):
         warnings.simplefilter("ignore")
         cls = type(StateMachine)(cls_name or "M_" + scn.name.replace("-", "_").replace(":", "_"),
                                  (StateMachine,), ns, strict_states=scn.strict)
+    if scn.alias_sub:     # the parent's event re-declared under another name in a subclass
+        with warnings.catch_warnings():
+            warnings.simplefilter("ignore")
+            cls = type(cls)(cls.__name__ + "Sub", (cls,), {EVENTS[scn.alias_sub[1]]: getattr(cls, EVENTS[scn.alias_sub[0]])})
     # the model field is a logging property: every write by the engine is observed ("T <value>")
     def _get(self):
         return self.__dict__.get("_st")
@@ -777,6 +790,8 @@ class Session:
                 return "L", f"A {i} err {rt.exc_s(e)}"
         if op[0] == "events":
             ids = sorted(int(rt.ev_id(e)) for e in rt.sm.events)
+            if self.scn.alias_sub:      # the renamed event stays declared (inherited), without transitions
+                ids = [x for x in ids if x != self.scn.alias_sub[0]]
             return "L", f"V {i} " + ",".join(str(x) for x in ids)
         raise ValueError(op)
 
